@@ -6,7 +6,9 @@ import (
 	"compress/flate"
 	"errors"
 	"fmt"
+	"github.com/gobwas/httphead"
 	"io"
+	"sort"
 	"strings"
 
 	"github.com/gobwas/ws"
@@ -347,7 +349,9 @@ func main() {
 								continue
 							}
 							c, failPre, h, q := c, failPre, h, q
-							t.Do(func() string { return fmt.Sprintf("compressor=%s preFailAt=%d history=%v post=%v", c.name, failPre, h, q) }, func() *explore.Fail {
+							t.Do(func() string {
+								return fmt.Sprintf("compressor=%s preFailAt=%d history=%v post=%v", c.name, failPre, h, q)
+							}, func() *explore.Fail {
 								run := func(w *wsflate.Writer, d *env.Dst) string {
 									var b strings.Builder
 									for _, o := range q {
@@ -460,6 +464,81 @@ func main() {
 					}
 				}
 			}
+		})
+
+		// The permessage-deflate negotiator is reused across upgrades through Reset, and its owner
+		// may reassign Parameters in between: after Reset it answers, and reports, exactly like a
+		// fresh one configured the same way - whatever it negotiated, refused or failed on before.
+		r.Part("E5b-wsflate.Extension.Reset", func(t *explore.T) {
+			type P = wsflate.Parameters
+			var ps []P
+			for _, a := range []bool{false, true} {
+				for _, b := range []bool{false, true} {
+					for _, sw := range []wsflate.WindowBits{0, 9, 15} {
+						for _, cw := range []wsflate.WindowBits{0, 1, 11} {
+							ps = append(ps, P{ServerNoContextTakeover: a, ClientNoContextTakeover: b, ServerMaxWindowBits: sw, ClientMaxWindowBits: cw})
+						}
+					}
+				}
+			}
+			var cfgs []P
+			for _, p := range ps {
+				if p.ClientMaxWindowBits != 1 {
+					cfgs = append(cfgs, p)
+				}
+			}
+			bogus := httphead.Option{Name: []byte("permessage-deflate")}
+			bogus.Parameters.Set([]byte("bogus"), nil)
+			render := func(o httphead.Option, err error, e *wsflate.Extension) string {
+				var b strings.Builder
+				fmt.Fprintf(&b, "err=%v name=%q", err != nil, o.Name)
+				var kv []string
+				o.Parameters.ForEach(func(k, v []byte) bool { kv = append(kv, string(k)+"="+string(v)); return true })
+				sort.Strings(kv)
+				got, ok := e.Accepted()
+				fmt.Fprintf(&b, " params=%v accepted=%v/%+v", kv, ok, got)
+				return b.String()
+			}
+			t.Par(len(cfgs), func(ci int) {
+				cfgA := cfgs[ci]
+				for _, history := range []string{"accepted", "accepted-then-refused", "refused", "declined-list"} {
+					for _, offA := range []P{{}, {ServerMaxWindowBits: 10, ClientMaxWindowBits: 1}} {
+						history, offA := history, offA
+						t.DoN(int64(len(cfgs)*len(ps)), func() string {
+							return fmt.Sprintf("first upgrade config%+v offer%+v (%s); Reset; Parameters reassigned; every config x offer", cfgA, offA, history)
+						}, func() *explore.Fail {
+							for _, cfgB := range cfgs {
+								for _, offB := range ps {
+									e := &wsflate.Extension{Parameters: cfgA}
+									switch history {
+									case "accepted":
+										e.Negotiate(offA.Option())
+									case "accepted-then-refused":
+										e.Negotiate(offA.Option())
+										e.Negotiate(bogus)
+									case "refused":
+										e.Negotiate(bogus)
+									case "declined-list":
+										e.Negotiate(offA.Option())
+										e.Negotiate(offA.Option())
+										e.Negotiate(offA.Option())
+									}
+									e.Reset()
+									e.Parameters = cfgB
+									a, aerr := e.Negotiate(offB.Option())
+									f := &wsflate.Extension{Parameters: cfgB}
+									b, berr := f.Negotiate(offB.Option())
+									if x, y := render(a, aerr, e), render(b, berr, f); x != y {
+										return explore.Failf("Extension-after-Reset-differs-from-fresh:"+history, "second upgrade config%+v offer%+v\nreused: %s\nfresh:  %s", cfgB, offB, x, y)
+									}
+								}
+							}
+							return nil
+						})
+					}
+				}
+			})
+			t.Outcome("same-as-fresh")
 		})
 
 		r.Part("E6-cipher-utf8-resets", func(t *explore.T) {
